@@ -68,9 +68,10 @@ class GateAtoms:
         elif ci.fixable is False:
             name = f"ZUNFIXABLE:{root}"
         elif ci.is_tmp_prs():
-            name = f"Z{'U' if ci.kind == UNF else 'F'}:{root}"
+            # "unfiltered" = neither noqa/ignore nor the warning level hides an error from the count
+            name = f"Z{'U' if ci.kind == UNF and not ci.warn_filtered else 'F'}:{root}"
         elif ci.types is not None and "SQLTemplaterError" in ci.types and len(ci.types) == 1:
-            name = f"ZTMP{'U' if ci.kind == UNF else 'F'}:{root}"
+            name = f"ZTMP{'U' if ci.kind == UNF and not ci.warn_filtered else 'F'}:{root}"
         else:
             return None
         self.seen.append((name, ci.via, getattr(e, "lineno", 0)))
